@@ -252,6 +252,9 @@ class R:
     def lift(x):
         if isinstance(x, R):
             return x
+        r = getattr(x, "r", None)
+        if isinstance(r, R):          # dtmodel.SF / SI wrappers
+            return r
         return R.const(x)
 
     @staticmethod
